@@ -1,4 +1,5 @@
 import ZnVerif.Properties.C06
+import ZnVerif.Properties.C06Eval
 open ZnVerif.Properties.C06
 #print axioms scope_refines_stack_from
 #print axioms scope_refines_stack
@@ -17,3 +18,22 @@ open ZnVerif.Properties.C06
 #print axioms globals_found_first
 #print axioms globals_not_declarable
 #print axioms globals_not_assignable
+
+-- evaluator-level half (Properties/C06Eval.lean)
+#print axioms ZnVerif.Properties.C06Eval.sorted_depths_preserved
+#print axioms ZnVerif.Properties.C06Eval.end_scope_drops_deeper
+#print axioms ZnVerif.Properties.C06Eval.end_scope_forgets
+#print axioms ZnVerif.Properties.C06Eval.end_scope_forgets_declared
+#print axioms ZnVerif.Properties.C06Eval.withScope_balanced
+#print axioms ZnVerif.Properties.C06Eval.withScope_without_scope
+#print axioms ZnVerif.Properties.C06Eval.withScope_restores_depth
+#print axioms ZnVerif.Properties.C06Eval.withScope_depth_general
+#print axioms ZnVerif.Properties.C06Eval.every_function_balances
+#print axioms ZnVerif.Properties.C06Eval.blocks_balance
+#print axioms ZnVerif.Properties.C06Eval.block_leaves_no_declarations
+#print axioms ZnVerif.Properties.C06Eval.exec_block_restores_scope
+#print axioms ZnVerif.Properties.C06Eval.outer_symbols_kept
+#print axioms ZnVerif.Properties.C06Eval.well_scoped_invariant
+#print axioms ZnVerif.Properties.C06Eval.well_scoped_initially
+#print axioms ZnVerif.Properties.C06Eval.const_declaration_rejects_assignment
+#print axioms ZnVerif.Properties.C06Eval.inputs_are_const
